@@ -74,10 +74,11 @@ theorem nesting_transparent_run (S : Static) (hS : S.Valid) (orc : Oracle) (fuel
       ticks.map (·.time) = ticks'.map (·.time) ∧ ticks.map (·.real) = ticks'.map (·.real) ∧
       ∀ d, ObsEq (m2.sim.obsOf d) (m2'.sim.obsOf d) := by
   obtain ⟨m', tr', h', _⟩ := nesting_transparent_initial_core S hS orc fuel rfuel hr t0 now m tr h
-  have hc := corr_initial hS hr h h'
+  have hrank := (masterInitial_facts hS hr h).flatRank
+  have hc := corr_initial hS hr hrank h h'
   obtain ⟨c1, c2, c3, c4, c5⟩ := masterInitial_clock h
   obtain ⟨c1', c2', c3', c4', c5'⟩ := masterInitial_clock h'
-  obtain ⟨m2', ticks', hrun, ht, hre, hc2⟩ := masterRun_corr hS hr sp steps nTicks m m' [tr] [tr'] hc
+  obtain ⟨m2', ticks', hrun, ht, hre, hc2⟩ := masterRun_corr hS hr hrank sp steps nTicks m m' [tr] [tr'] hc
     ⟨c1.trans c1'.symm, c2.trans c2'.symm, c3.trans c3'.symm⟩ (by simp [c4, c4']) (by simp [c5, c5'])
     m2 ticks h2
   exact ⟨1, m', tr', m2', ticks', h', hrun, ht, hre, hc2.obs⟩
